@@ -6,6 +6,8 @@ import Proofs.C17.Svc
 import Proofs.C17.Manager
 import Proofs.C17.FW
 import Proofs.C17.System
+import Proofs.C17.Live
+import Proofs.C17.Late
 /-!
 # C17 — property theorems (statements; proofs live in `Proofs/C17*.lean`)
 
@@ -252,6 +254,51 @@ example :
        .handover 1, .svc 0 (.startRet none), .svc 0 .tau, .svc 0 .tau, .handover 0, .handover 1, .svc 0 .tau, .handover 0]
     y.mgr.state = .healthy ∧ y.svcs.map (·.st) = [.running, .running] ∧ y.svcs.map nextForManager = [none, none] := by
   decide
+
+/-! ### liveness without fairness: everything can always finish -/
+
+/-- **A service can always finish.** From every reachable state the fixed, computable schedule `svcFinish`
+(StopAsync, then let `main()` run and every function return nil) leaves the service Terminated or Failed:
+no reachable state is a deadlock, whatever happened before (any interleaving, any errors, any listeners). -/
+theorem service_can_always_finish (a b c : Bool) (evs : List Ev) :
+    (run (run (init a b c) evs) svcFinish).st.terminal = true :=
+  (svcFinish_terminal _ (inv_run a b c evs).1).1
+
+/-- **Services + manager can always finish.** From every reachable state of the composed system the
+schedule `sysFinish n` (finish each service, hand its notifications to the manager) leaves every service
+Terminated or Failed and the manager Stopped, with `stoppedCh` closed exactly once (so every
+`AwaitStopped` has returned). -/
+theorem system_can_always_finish (cfgs : List (Bool × Bool × Bool)) (hne : cfgs ≠ []) (evs : List SysEv) :
+    let y := (System.init cfgs).run evs
+    let y' := y.run (sysFinish y.svcs.length)
+    (∀ s ∈ y'.svcs, s.st.terminal = true) ∧ y'.mgr.state = .stopped ∧ y'.mgr.stoppedCloses = 1 := by
+  intro y y'
+  obtain ⟨h1, h2, h3, _⟩ := system_finishes y (yinv_run _ evs (yinv_init cfgs hne))
+  exact ⟨h1, h2, h3⟩
+
+/-- non-vacuity: a system stuck in the middle (service 0 inside its start function, service 1 running,
+nothing handed over yet) is driven to the end by `sysFinish`. -/
+example :
+    let y := (System.init [(true, true, true), (false, true, false)]).run
+      [.svc 0 .startAsync, .svc 1 .startAsync, .svc 1 .tau, .svc 1 .tau, .svc 1 .tau, .svc 1 .tau, .svc 0 .tau]
+    let y' := y.run (sysFinish 2)
+    y.svcs.map (·.st) = [.starting, .running] ∧ y.mgr.state = .unknown ∧
+    y'.svcs.map (·.st) = [.terminated, .terminated] ∧ y'.mgr.state = .stopped := by
+  decide +kernel
+
+/-- **A listener added at any point of a history** (service not yet terminal, `k` transitions made so
+far) sees exactly the transitions made after its registration, in order, each once: whatever happens
+next, its callbacks run so far followed by the callbacks still queued are the transitions number
+k+1, k+2, … (a prefix of them once its remove function has run), and the first k are never replayed. -/
+theorem late_listener_sees_exact_suffix (a b c : Bool) (evs more : List Ev)
+    (hnt : (run (init a b c) evs).st.terminal = false) :
+    let s := run (init a b c) evs
+    let s2 := run (step s .addListener) more
+    s.trans <+: s2.trans ∧
+    ∃ l ∈ s2.lsns, l.id = s.nextL ∧ l.regAt = s.trans.length ∧
+      (l.removed = false → l.seen ++ l.queue = s2.trans.drop s.trans.length) ∧
+      (l.removed = true → l.seen <+: s2.trans.drop s.trans.length) :=
+  late_listener _ (inv_run a b c evs).1 hnt more
 
 /-! ### failure watcher -/
 
